@@ -136,11 +136,13 @@ static void put_marshalled (DBusMessage *m)
 
 /* load <mode> <chunk> [<chunk> ...] : feed a loader chunk by chunk (queue_messages after each, as the transport does).
  * mode: m = print marshalled messages, d = print accessor dumps */
+static long g_load_max = -1;      /* loadmax: the loader's max_message_size for the next do_load */
 static void do_load (char *mode)
 {
   DBusMessageLoader *l = _dbus_message_loader_new ();
   char *tok; int produced_after_corrupt = 0;
   if (l == NULL) abort ();
+  if (g_load_max >= 0) _dbus_message_loader_set_max_message_size (l, g_load_max);
   while ((tok = strtok (NULL, " ")) != NULL)
     {
       int n; unsigned char *b = unhex (tok, &n); DBusString *buf; int off = 0;
@@ -560,7 +562,8 @@ int main (void)
       else if (!strcmp (cmd, "busname")) do_name (a1, _dbus_validate_bus_name, dbus_validate_bus_name);
       else if (!strcmp (cmd, "utf8")) do_utf8 (a1);
       else if (!strcmp (cmd, "sig")) do_sig (a1);
-      else if (!strcmp (cmd, "load")) do_load (a1);
+      else if (!strcmp (cmd, "load")) { g_load_max = -1; do_load (a1); }
+      else if (!strcmp (cmd, "loadmax")) { g_load_max = atol (a1); do_load (strtok (NULL, " ")); g_load_max = -1; }
       else if (!strcmp (cmd, "loadf")) do_loadf (a1);
       else if (!strcmp (cmd, "demarshal")) do_demarshal (a1);
       else if (!strcmp (cmd, "swap")) do_swap (a1);
